@@ -420,8 +420,10 @@ def main():
     seen_sig = set()
     # concrete failures of the property first, broken correspondence last
     div_found.sort(key=lambda d: {"spec": 0, "crash": 1}.get(d.kind, 2 if d.kind.startswith("known:") else 3))
-    if any(d.kind in ("spec", "crash") for d in div_found):
-        # the search found failing inputs: the correspondence breaks are explained by them
+    is_known = lambda d: d.kind == "spec" and d.impl == d.model and d.tags and all(t in known_tags for t in d.tags)
+    if any(d.kind in ("spec", "crash") and not is_known(d) for d in div_found):
+        # the search found failing inputs: the correspondence breaks are explained by them.  (A recorded finding explains
+        # nothing: where the only concrete failures are known findings, a broken correspondence is still reported.)
         div_found = [d for d in div_found if d.kind in ("spec", "crash") or d.kind.startswith("known:")]
     for d in div_found:
         if reported >= 5:
